@@ -161,7 +161,7 @@ static void check_case(vg::Src& s, vh::Ctx& c)
                 {
                     fn();
                 }
-                catch (const std::runtime_error&)
+                catch (const std::exception&)  // "refused with an error": any error type counts
                 {
                     threw = true;
                 }
